@@ -5,7 +5,7 @@ import ElaVerif.Gen.C23
   Driver step for C23 (core Lean only; `Lemmas/WireTokens.lean` and the regenerated `Gen/C23.lean`
   contain no Mathlib import).  The schema of a checkpoint type is *derived* from the regenerated
   read-token stream of its `Deserialize` (`WireTokens.ofToks`); types whose stream still contains a
-  dynamic dispatch have no decodable schema and are answered `unmodelled`.
+  dynamic dispatch outside a list element have no decodable schema and are answered `unmodelled`.
 
     ckpt <type> <hex> <digest>   → ok <consumed> <sha256d(re-encoding of the decoded value)> | err | unmodelled
 -/
@@ -14,7 +14,10 @@ open ElaVerif.Bytes ElaVerif.Wire ElaVerif.WireTokens ElaVerif.WireDriver
 
 def schemaOf (name : String) : Option Ty :=
   match findStream Gen.C23.streams name with
-  | some s => let ty := ofToks s.de; if hasFail ty then none else some ty
+  | some s =>
+    -- a dynamic dispatch inside a list element (the `ArbiterMember` lists of the DPoS CheckPoint) is
+    -- tolerated: such a schema decodes every instance whose lists of that kind are empty
+    let ty := ofToks s.de; if hasFailOutsideList ty then none else some ty
   | none => none
 
 def step : List String → String
